@@ -49,6 +49,9 @@ type tctx struct {
 func (c *tctx) Err() error {
 	if c.armed.Load() && c.used.CompareAndSwap(false, true) && c.onErr != nil {
 		c.onErr()
+		// let the callbacks of the contexts just cancelled run BEFORE the constructor goes on (they are goroutines): a hook
+		// that fires in the middle of the construction is the interesting case, not one that is still queued when it ends
+		time.Sleep(300 * time.Microsecond)
 	}
 	return c.Context.Err()
 }
